@@ -733,6 +733,10 @@ class Wavefront:
             intensity was calculated
 
         """
+        if isinstance(intensity_bar, (Wavefront, RichData)):
+            # the upstream gradient may arrive in the container the intensity was returned in
+            intensity_bar = intensity_bar.data
+
         Gbar = 2 * intensity_bar * self.data
         return Wavefront(Gbar, self.wavelength, self.dx, self.space)
 
